@@ -236,8 +236,13 @@ SHAPES = ["dense", "sparse", "single", "empty"]
 
 def scenario(rng, target, kind, shape, n_others=None, follow=True):
     """register, populate, destroying op on/through `target`, observe, follow-up mutations and a second
-    destroying op, observe; the harness tears the world down at the end"""
+    destroying op, observe; the harness tears the world down at the end.  Returns (history, index of the
+    destroying operation the scenario is about)"""
     b = Builder(rng, uid0=rng.randrange(1, 50) * 1000)
+    return _scenario(b, rng, target, kind, shape, n_others, follow), b.target
+
+
+def _scenario(b, rng, target, kind, shape, n_others, follow):
     n_others = rng.choice([0, 1, 2, 3]) if n_others is None else n_others
     others = rng.sample([s for s in ALL_SIDS if s != target], n_others)
     regs = [target] + others
@@ -247,7 +252,9 @@ def scenario(rng, target, kind, shape, n_others=None, follow=True):
     populate(b, target, others, shape)
     if rng.random() < 0.3:
         b.observe(light=True)
+    before = len(b.h)
     destroying_op(b, kind, target, others)
+    b.target = max(i for i in range(before, len(b.h)) if b.h[i][0] in DESTROYING)
     if kind == "drop_world":
         return b.h
     b.observe()
@@ -271,7 +278,8 @@ def scenario(rng, target, kind, shape, n_others=None, follow=True):
 
 
 def base_scenarios(rng, tier):
-    """(label, history) pairs: every storage id x every destroying operation, shapes rotated (quick) or all (thorough)"""
+    """(label, history, target op index) triples: every storage id x every destroying operation, shapes rotated
+    (quick) or all (thorough)"""
     out = []
     rot = 0
     for target in ALL_SIDS:
@@ -281,13 +289,14 @@ def base_scenarios(rng, tier):
             for shape in shapes:
                 if shape == "empty" and kind in ("remove", "insert_over") and tier != "thorough":
                     shape = "dense"
-                out.append(("%s/%s/%s" % (SID_NAMES[target], kind, shape), scenario(rng, target, kind, shape)))
+                h, tpos = scenario(rng, target, kind, shape)
+                out.append(("%s/%s/%s" % (SID_NAMES[target], kind, shape), h, tpos))
     # several storages of every kind in one world, so that delete_components and the teardown cross them
     for _ in range(40 if tier == "quick" else 300):
         kind = rng.choice(["delete", "delete_many", "delete_all", "maintain", "drop_world", "delete_many_failing"])
         target = rng.choice(ALL_SIDS)
-        out.append(("cross/%s" % kind, scenario(rng, target, kind, rng.choice(["dense", "sparse"]),
-                                               n_others=rng.randint(3, 6))))
+        h, tpos = scenario(rng, target, kind, rng.choice(["dense", "sparse"]), n_others=rng.randint(3, 6))
+        out.append(("cross/%s" % kind, h, tpos))
     return out
 
 
@@ -311,15 +320,13 @@ def fault_positions(n, cap):
     return sorted(keep)
 
 
-def fault_variants(h, drops_per_op, cap=12, first_only=False):
+def fault_variants(h, drops_per_op, cap=12, only=None):
     """drops_per_op[i] = number of destructor calls of operation i in the fault-free run.
-    yields (pos, k, n, history) for every destroying operation (or only the first)"""
-    done_first = False
+    yields (pos, k, n, history) for every destroying operation (or only the one at index `only`)"""
     for pos in destroying_positions(h):
+        if only is not None and pos != only:
+            continue
         n = drops_per_op[pos] if pos < len(drops_per_op) else 0
-        if first_only and done_first:
-            break
-        done_first = True
         for k in fault_positions(n, cap):
             yield pos, k, n, with_fault(h, pos, k)
 
